@@ -389,6 +389,11 @@ func main() {
 		rep.Write(orc)
 		return
 	}
+	foldGrid()
+	if os.Getenv("HC01_ONLY") == "foldgrid" { // development aid
+		rep.Write(orc)
+		return
+	}
 	// corpus first: minimised past divergences (witnesses of fixed defects must stay fixed)
 	if root := os.Getenv("VERIF_ROOT"); root != "" {
 		files, _ := filepath.Glob(filepath.Join(root, "corpus", "C01", "*.json"))
@@ -420,6 +425,9 @@ func main() {
 			fmt.Fprintf(os.Stderr, "prog %d %+v\n", pi, cfg)
 		}
 		runProgram(r, pi, cfg, !*noLean && !cfg.SIMD && !cfg.BlockParams && !cfg.Atomics)
+	}
+	for k, v := range gen.Stats {
+		rep.Hist["gen:"+k] += v
 	}
 	rep.Write(orc)
 }
